@@ -404,7 +404,7 @@ impl Prop for C09 {
     "case = (1-3 segments of random documents over a 3-8 word vocabulary with heavy-tailed term frequencies, optional deletes, one scored query of kind plain|boosted|dis_max|function_score|script_score|rank_feature, limit 1..50, bmw_block_size 1..300 or default); size classes tiny (8-60 docs, block size 1-3, limit 1-5), medium (60-250 docs), long (posting lists of 400-1200 entries); every case runs execution=bm25, wand and bmw on one reader; non-trivial = some segment has more accepted candidates than limit+1 (the heap fills and pruning decisions are taken); distinct = distinct case JSON"
   }
   fn count(&self, tier: Tier) -> usize {
-    tier.pick(300, 30000)
+    tier.pick(300, 20000)
   }
   fn gen(&self, rng: &mut Rng, _tier: Tier, i: usize) -> Value {
     let class = match i % 10 {
@@ -567,6 +567,9 @@ impl Prop for C09 {
     }
     if !hook && model["bounds_ok"] != json!(true) {
       s.disagree("monitor.bounds_ok", case, json!("hook-free query"), json!({"bounds_ok": model["bounds_ok"]}));
+    }
+    if model["valid_bounds"] != json!(true) || model["wf"] != json!(true) {
+      s.disagree("monitor.valid_bounds", case, json!(null), json!({"valid_bounds": model["valid_bounds"], "wf": model["wf"]}));
     }
     if model["refines"] != json!(true) {
       s.disagree("monitor.wandLoop_eq_wandRule", case, json!(null), json!({"refines": model["refines"]}));
